@@ -11,13 +11,23 @@ Definition class_of (e : err) : eclass :=
   | ErrIO => E_IOError
   end.
 
-Inductive dexpect := XOk (v : val) | XErr (c : eclass) | XErrAt (c : eclass) (l : loc).
+Inductive dexpect := XOk (v : val) | XErr (c : eclass) | XErrAt (c : eclass) (l : loc)
+| XErrLocs (c : eclass) (reference defined : loc).   (* Error::locations(), else Error::location() twice *)
+
+Definition err_locs (e : err) : loc * loc :=
+  match e with
+  | Err _ l | ErrBudget _ l => (l, l)
+  | ErrAlias r d => (r, d)
+  | ErrIO => (loc_unknown, loc_unknown)
+  end.
 
 Definition outcome_matches (o : outcome) (x : dexpect) : bool :=
   match o, x with
   | OOk v, XOk v' => val_eqb v v'
   | OErr e, XErr c => eclass_beq (class_of e) c
   | OErr (Err c' l'), XErrAt c l => eclass_beq c' c && loc_eqb l' l
+  | OErr e, XErrLocs c r d =>
+    eclass_beq (class_of e) c && loc_eqb (fst (err_locs e)) r && loc_eqb (snd (err_locs e)) d
   | _, _ => false
   end.
 
